@@ -58,9 +58,10 @@ def run(ctx):
             "extraction: ExtrOcamlBasic only; OCaml driver ocaml/C14/main.ml + ocaml/common/conv.ml",
             "correspondence harness harness/cmd/hC14 + harness/internal/a08 (both real providers, preload off and on, built by "
             "components/providers/http.NewProvider from the same afero mem file; one consumer reading every request body; bounded waits of 2 s; "
-            "content cells `cpair`: tag, Host and header set of every acquired ammo rendered by harness/cmd/hC14/content.go)",
+            "content cells `cpair`: tag, Host and header set of every acquired ammo rendered by harness/cmd/hC14/content.go; "
+            "middleware cells `mpair` (harness/cmd/hC14/mw.go): the real header/date middleware and user middlewares, time stamps rendered as a marker)",
             "modelled, not verified: the decoders at the level of the item list (header lines / entries with byte-string tags; bytes -> items is C07's, linked for uri and the raw header line by C14_uri_bytes_link / C14_raw_header_whole_tag); "
-            "the decoder's live header map as a heap of maps (Model/PreloadContent.v); Go channel hand-off and context cancellation as in C08",
+            "the decoder's live header map as a heap of maps (Model/PreloadContent.v); the header maps of ammo objects and requests and the middlewares as operations on them (Model/PreloadMw.v); Go channel hand-off and context cancellation as in C08",
         ],
         assumptions=["Go channels deliver every sent item exactly once, in order; close wakes all receivers"],
     )
